@@ -202,6 +202,13 @@ func (runInfo *runInfoStruct) invokeAddOperator(operator *ast.AddOperator) {
 			return
 		}
 
+		if lhsKind == reflect.Map && rhsKind == reflect.Map {
+			// there is no append on maps
+			runInfo.err = newStringError(operator, "invalid operation")
+			runInfo.rv = nilValue
+			return
+		}
+
 		kind := precedenceOfKinds(lhsKind, rhsKind)
 		switch kind {
 		case reflect.String:
